@@ -8,12 +8,17 @@
   Reading of the property sentence:
     * "no two contained objects share an id" + "the id pool stays exact"      → `Inv`  (C09_inv_*)
     * "adding an object whose id is in use raises ValueError and leaves the scenario unchanged"
-                                                                               → C09_add_used_rejects
-      (and, the other way round, an object whose ids are all free is accepted  → C09_add_free_accepts)
+                                                                               → C09_add_used_rejects, C09_add_list_rejects
+      (the other way round: an object whose ids are all free is accepted, is itself contained afterwards and nothing
+       else changes                                                            → C09_add_free_accepts, C09_add_frame,
+                                                                                 C09_add_network_frame)
     * "generate_object_id returns an id that no contained object uses and that was never returned before"
-                                                                               → C09_gen_fresh, C09_gen_never_repeats
-    * "the ids of removed objects become free again ... can be added again"    → C09_removed_can_be_added_again and
-                                                                                 C09_remove_*_then_add (every form)
+                                                     → C09_gen_fresh (one call), C09_gen_fresh_in_history (any point of
+                                                       any history), C09_gen_never_repeats
+    * "the ids of removed objects become free again ... can be added again"    → C09_remove_*_then_add, one per removal
+      form.  Each of them states, for contained (and, in the list forms, pairwise distinct) arguments: the call RETURNS
+      (no `hr : … = ok` hypothesis), and every object that left can be added again.  For remove_lanelet the signs and
+      lights that leave with the lanelets are characterised without the model's helper `hangingSigns`.
   The theorems hold for ALL states satisfying the invariant and ALL finite histories of operations — there is no
   admissibility side condition: removal operations handed an object that is not contained raise KeyError (or warn,
   remove_obstacle) before anything changes, see the fourth `fix:` commit.
@@ -96,15 +101,37 @@ theorem C09_add_list_rejects (s s1 : St) (os1 os2 : List Obj) (o : Obj) (refs : 
   rw [this]
   show andThen (addObj s1 o refs) _ = _
   rw [hrej]; rfl
-/-- anything that is not a scenario object: ValueError, nothing changes -/
+/-- anything that is not a scenario object: ValueError, nothing changes
+    (definitional: documents the `else: raise ValueError` branch of the model, carries no proof content) -/
 theorem C09_add_wrong_type_rejects (s : St) (refs : List Nat) : step s (.add .invalid refs) = (s, .err .value) := rfl
 
-/-- Conversely an object whose ids are distinct and used by no contained object is accepted and contained afterwards
-    (so a ValueError is raised exactly when an id is in use). -/
+/-- Conversely an object whose ids are distinct and used by no contained object is accepted and is itself contained
+    afterwards — `Contains` names the object, not just an id: the lanelet value with its references, the intersection
+    with its incoming ids, the obstacle in the dict of its role, the network as THE network (so a ValueError is raised
+    exactly when an id is in use). -/
 theorem C09_add_free_accepts (s : St) (o : Obj) (refs : List Nat) (h : Inv s) (hv : o ≠ .invalid)
     (hn : (objIds o).Nodup) (hf : ∀ x ∈ objIds o, x ∉ allIds s) :
     (step s (.add o refs)).2 = .ok ∧ Contains (step s (.add o refs)).1 o :=
   addObj_fresh s o refs h hv ((fresh_iff_allIds s h _).mpr ⟨hn, hf⟩)
+
+/-- Frame of an accepted add (anything but a whole network): every object that was contained is still contained
+    (`Keeps`: obstacles per role, lanelets by id, signs, lights, intersections with their incomings), the multiset of
+    contained ids grows by exactly the ids of the new object, and so does the id pool. -/
+theorem C09_add_frame (s : St) (o : Obj) (refs : List Nat) (h : Inv s) (hnw : ∀ n, o ≠ .network n)
+    (hn : (objIds o).Nodup) (hf : ∀ x ∈ objIds o, x ∉ allIds s) :
+    Keeps s (step s (.add o refs)).1 ∧
+    (∀ x, (allIds (step s (.add o refs)).1).count x = (allIds s).count x + (objIds o).count x) ∧
+    (∀ x, x ∈ (step s (.add o refs)).1.idSet ↔ x ∈ s.idSet ∨ x ∈ objIds o) :=
+  have hfr := (fresh_iff_allIds s h _).mpr ⟨hn, hf⟩
+  ⟨addObj_keeps s o refs hnw, addObj_cnt s o refs h hnw hfr, addObj_idSet s o refs hnw hfr⟩
+
+/-- Frame of an accepted add_objects(LaneletNetwork): it becomes the network, the obstacles are untouched, and the id
+    pool is exactly the ids of the new members plus the ids of the obstacles (the replaced network's ids are released). -/
+theorem C09_add_network_frame (s : St) (n : Net) (refs : List Nat) (h : Inv s)
+    (hn : (netIds n).Nodup) (hf : ∀ x ∈ netIds n, x ∉ allIds s) :
+    (step s (.add (.network n) refs)).1.net = n ∧ SameObst s (step s (.add (.network n) refs)).1 ∧
+    ∀ x, x ∈ (step s (.add (.network n) refs)).1.idSet ↔ x ∈ netIds n ∨ x ∈ obstIds s :=
+  addNetwork_frame s n h ((fresh_iff_allIds s h _).mpr ⟨hn, hf⟩)
 
 /-! ## 3. generate_object_id -/
 
@@ -123,22 +150,46 @@ theorem C09_gen_never_repeats (ops : List Op) (s : St) :
   have := (run_gen_increasing ops s).2
   exact ⟨this, this.imp (fun h => Nat.ne_of_lt h)⟩
 
-/-! ## 4. removed objects can be added again -/
+/-- (definitional: documents `run`) the outcome list of a history splits at any point; `(run s pre).1` is the scenario
+    "at that point". -/
+theorem C09_run_split (s : St) (pre post : List Op) (op : Op) :
+    (run s (pre ++ op :: post)).2
+      = (run s pre).2 ++ (step (run s pre).1 op).2 :: (run (step (run s pre).1 op).1 post).2 := by
+  rw [run_append]; rfl
 
-/-- General form: after ANY operation (a removal of any form, a removal as a consequence of removing a
-    lanelet, a replacement of the network, ...) every object whose ids are used by no object that is contained now
-    can be added — in particular every object that has just left the scenario, unless a new member took its id. -/
-theorem C09_removed_can_be_added_again (s : St) (op : Op) (h : Inv s) (o : Obj) (refs : List Nat)
-    (hv : o ≠ .invalid) (hn : (objIds o).Nodup) (hf : ∀ x ∈ objIds o, x ∉ allIds (step s op).1) :
-    (step (step s op).1 (.add o refs)).2 = .ok :=
-  (C09_add_free_accepts _ o refs (step_inv s op h) hv hn hf).1
+/-- At ANY point of ANY history (from a state satisfying the invariant, e.g. the empty scenario): the id that
+    `generate_object_id` returns there is used by no object contained at that point and is larger than — hence
+    different from — every id returned earlier in the history. -/
+theorem C09_gen_fresh_in_history (s : St) (h : Inv s) (pre : List Op) :
+    ∃ n, (step (run s pre).1 .genId).2 = .id n ∧ n ∉ allIds (run s pre).1 ∧
+      ∀ m ∈ genOuts (run s pre).2, m < n := by
+  have hi := run_inv pre s h
+  obtain ⟨n, e, h1, h2⟩ := genId_spec (run s pre).1
+  refine ⟨n, by simp only [step, e], fun hx => ?_, fun m hm => ?_⟩
+  · have := h2 n (hi.mem_of_contained hx); omega
+  · have := genOuts_le_cv pre s m hm; omega
 
-/-- and the removals do release the ids; form by form: -/
+/-! ## 4. removed objects can be added again
+
+  One theorem per removal form.  Hypotheses: the invariant, the arguments are objects of the scenario and (list forms)
+  pairwise distinct.  Conclusions: the call returns normally, and each removed object can be added again. -/
+
 theorem C09_remove_obstacle_then_add (s : St) (k : Nat) (h : Inv s) (hk : k ∈ obstIds s) (r : Role) (refs : List Nat) :
     (step s (.removeObstacle k)).2 = .ok ∧ (step (step s (.removeObstacle k)).1 (.add (.obstacle r k) refs)).2 = .ok := by
   obtain ⟨h1, h2⟩ := removeObstacle_frees s k h hk
   exact ⟨h1, add_ok_of_free _ _ refs (removeObstacle_good s k h).1 (by simp) (by simp [objIds])
     (by simpa [objIds, step] using h2)⟩
+
+/-- list form of remove_obstacle (any list — ids that belong to no obstacle only produce a warning): the call returns,
+    every listed obstacle id is used by no contained object afterwards, and an obstacle with that id can be added -/
+theorem C09_remove_obstacle_list_then_add (s : St) (ks : List Nat) (h : Inv s) (k : Nat) (hk : k ∈ ks)
+    (ho : k ∈ obstIds s) (r : Role) (refs : List Nat) :
+    (step s (.removeObstacles ks)).2 = .ok ∧ k ∉ allIds (step s (.removeObstacles ks)).1 ∧
+    (step (step s (.removeObstacles ks)).1 (.add (.obstacle r k) refs)).2 = .ok := by
+  have hi := (removeObstacles_good s ks h).1
+  have hfree := removeObstacles_frees ks s h k hk ho
+  exact ⟨removeObstacles_ok s ks h, fun hx => hfree (hi.mem_of_contained hx),
+    add_ok_of_free _ _ refs hi (by simp) (by simp [objIds]) (by simpa [objIds, step] using hfree)⟩
 
 theorem C09_remove_sign_then_add (s : St) (k : Nat) (h : Inv s) (hk : k ∈ s.net.signs) (refs : List Nat) :
     (step s (.removeSign k)).2 = .ok ∧ (step (step s (.removeSign k)).1 (.add (.sign k) refs)).2 = .ok := by
@@ -159,53 +210,103 @@ theorem C09_remove_intersection_then_add (s : St) (i : Inter) (h : Inv s) (hi : 
   refine ⟨hok, add_ok_of_free _ _ refs (removeInter_good s i h).1 (by simp) (h.interIds_nodup hi) ?_⟩
   exact removeInter_frees_contained s _ i h hi (Prod.ext rfl hok)
 
-/-- list forms: when the call returns, every listed object can be added again -/
-theorem C09_remove_sign_list_then_add (s s' : St) (ks : List Nat) (h : Inv s)
-    (hr : step s (.removeSigns ks) = (s', .ok)) (k : Nat) (hk : k ∈ ks) (refs : List Nat) :
-    (step s' (.add (.sign k) refs)).2 = .ok :=
-  add_ok_of_free _ _ refs (fst_of_eq hr ▸ (removeSigns_good s ks h).1) (by simp) (by simp [objIds])
-    (by simpa [objIds] using removeSigns_frees s s' ks hr k hk)
+/-- list form of remove_traffic_sign: contained, pairwise distinct signs — the call returns and each can be added again -/
+theorem C09_remove_sign_list_then_add (s : St) (ks : List Nat) (h : Inv s) (hd : ks.Nodup)
+    (hc : ∀ k ∈ ks, k ∈ s.net.signs) :
+    (step s (.removeSigns ks)).2 = .ok ∧
+    ∀ k ∈ ks, ∀ refs, (step (step s (.removeSigns ks)).1 (.add (.sign k) refs)).2 = .ok := by
+  have hok := removeSigns_ok s ks h hd hc
+  refine ⟨hok, fun k hk refs => ?_⟩
+  exact add_ok_of_free _ _ refs (removeSigns_good s ks h).1 (by simp) (by simp [objIds])
+    (by simpa [objIds, step] using removeSigns_frees s _ ks (Prod.ext rfl hok) k hk)
 
-theorem C09_remove_light_list_then_add (s s' : St) (ks : List Nat) (h : Inv s)
-    (hr : step s (.removeLights ks) = (s', .ok)) (k : Nat) (hk : k ∈ ks) (refs : List Nat) :
-    (step s' (.add (.light k) refs)).2 = .ok :=
-  add_ok_of_free _ _ refs (fst_of_eq hr ▸ (removeLights_good s ks h).1) (by simp) (by simp [objIds])
-    (by simpa [objIds] using removeLights_frees s s' ks hr k hk)
+theorem C09_remove_light_list_then_add (s : St) (ks : List Nat) (h : Inv s) (hd : ks.Nodup)
+    (hc : ∀ k ∈ ks, k ∈ s.net.lights) :
+    (step s (.removeLights ks)).2 = .ok ∧
+    ∀ k ∈ ks, ∀ refs, (step (step s (.removeLights ks)).1 (.add (.light k) refs)).2 = .ok := by
+  have hok := removeLights_ok s ks h hd hc
+  refine ⟨hok, fun k hk refs => ?_⟩
+  exact add_ok_of_free _ _ refs (removeLights_good s ks h).1 (by simp) (by simp [objIds])
+    (by simpa [objIds, step] using removeLights_frees s _ ks (Prod.ext rfl hok) k hk)
 
-/-- list form of remove_intersection (the form that leaked the incoming ids before the fix) -/
-theorem C09_remove_intersection_list_then_add (s s' : St) (is : List Inter) (h : Inv s)
-    (hc : ∀ i ∈ is, i ∈ s.net.inters) (hr : step s (.removeInters is) = (s', .ok)) (i : Inter) (hi : i ∈ is)
-    (refs : List Nat) : (step s' (.add (.inter i) refs)).2 = .ok :=
-  add_ok_of_free _ _ refs (fst_of_eq hr ▸ (removeInters_good s is h).1) (by simp)
-    (h.interIds_nodup (hc i hi)) (removeInters_frees is s s' h hc hr i hi)
+/-- list form of remove_intersection (the form that leaked the incoming ids before the fix): contained, pairwise
+    distinct intersections — the call returns and each of them, with its incoming ids, can be added again -/
+theorem C09_remove_intersection_list_then_add (s : St) (is : List Inter) (h : Inv s) (hd : is.Nodup)
+    (hc : ∀ i ∈ is, i ∈ s.net.inters) :
+    (step s (.removeInters is)).2 = .ok ∧
+    ∀ i ∈ is, ∀ refs, (step (step s (.removeInters is)).1 (.add (.inter i) refs)).2 = .ok := by
+  have hok := removeInters_ok s is h hd hc
+  refine ⟨hok, fun i hi refs => ?_⟩
+  exact add_ok_of_free _ _ refs (removeInters_good s is h).1 (by simp) (h.interIds_nodup (hc i hi))
+    (removeInters_frees is s _ h hc (Prod.ext rfl hok) i hi)
 
-theorem C09_remove_obstacle_list_then_add (s : St) (ks : List Nat) (h : Inv s) (k : Nat) (r : Role) (refs : List Nat)
-    (hfree : k ∉ allIds (step s (.removeObstacles ks)).1) :
-    (step (step s (.removeObstacles ks)).1 (.add (.obstacle r k) refs)).2 = .ok :=
-  C09_removed_can_be_added_again s (.removeObstacles ks) h _ refs (by simp) (by simp [objIds])
-    (by simpa [objIds] using hfree)
+/-- remove_lanelet (single form = one-element list, and list form) for contained lanelets with pairwise different ids:
+    the call returns; exactly the listed lanelets leave; with `referenced_elements` a traffic sign (light) leaves iff a
+    removed lanelet refers to it and no remaining lanelet does, otherwise none leaves; the removed lanelets and every
+    sign and light that left can be added again. -/
+theorem C09_remove_lanelet_then_add (s : St) (ls : List Lanelet) (refd : Bool) (h : Inv s)
+    (hd : (ls.map (·.id)).Nodup) (hc : ∀ l ∈ ls, l.id ∈ lids s.net) :
+    let s' := (step s (.removeLanelets ls refd)).1
+    (step s (.removeLanelets ls refd)).2 = .ok ∧
+    (∀ x, x ∈ lids s'.net ↔ x ∈ lids s.net ∧ x ∉ ls.map (·.id)) ∧
+    (∀ x, x ∈ s'.net.signs ↔ x ∈ s.net.signs ∧
+      ¬ (refd = true ∧ (∃ l ∈ ls, x ∈ l.signs) ∧ ∀ l' ∈ s.net.lanelets, l'.id ∉ ls.map (·.id) → x ∉ l'.signs)) ∧
+    (∀ x, x ∈ s'.net.lights ↔ x ∈ s.net.lights ∧
+      ¬ (refd = true ∧ (∃ l ∈ ls, x ∈ l.lights) ∧ ∀ l' ∈ s.net.lanelets, l'.id ∉ ls.map (·.id) → x ∉ l'.lights)) ∧
+    (∀ l ∈ ls, ∀ refs, (step s' (.add (.lanelet l) refs)).2 = .ok) ∧
+    (∀ k ∈ s.net.signs, k ∉ s'.net.signs → ∀ refs, (step s' (.add (.sign k) refs)).2 = .ok) ∧
+    (∀ k ∈ s.net.lights, k ∉ s'.net.lights → ∀ refs, (step s' (.add (.light k) refs)).2 = .ok) := by
+  intro s'
+  have hok : (removeLanelets s ls refd).2 = .ok := removeLanelets_ok s ls refd h hd hc
+  have hr : removeLanelets s ls refd = (s', .ok) := Prod.ext rfl hok
+  have g : Good s s' := removeLanelets_good s ls refd h
+  obtain ⟨e1, e2, e3⟩ := removeLanelets_effect s s' ls refd hr
+  obtain ⟨f1, _⟩ := removeLanelets_frees s s' ls refd hr
+  refine ⟨hok, e1, fun x => ?_, fun x => ?_, fun l hl refs => ?_, fun k hk hk' refs => ?_, fun k hk hk' refs => ?_⟩
+  · rw [e2 x]
+    have := mem_hangingSigns s ls x
+    constructor
+    · rintro ⟨a, b⟩; exact ⟨a, fun ⟨r, c, d⟩ => b r (this.mpr ⟨a, c, d⟩)⟩
+    · rintro ⟨a, b⟩; exact ⟨a, fun r hm => b ⟨r, (this.mp hm).2.1, (this.mp hm).2.2⟩⟩
+  · rw [e3 x]
+    have := mem_hangingLights s ls x
+    constructor
+    · rintro ⟨a, b⟩; exact ⟨a, fun ⟨r, c, d⟩ => b r (this.mpr ⟨a, c, d⟩)⟩
+    · rintro ⟨a, b⟩; exact ⟨a, fun r hm => b ⟨r, (this.mp hm).2.1, (this.mp hm).2.2⟩⟩
+  · exact add_ok_of_free _ _ refs g.1 (by simp) (by simp [objIds]) (by simpa [objIds] using f1 l hl)
+  · rcases g.2.signs k hk with q | q
+    · exact absurd q hk'
+    · exact add_ok_of_free _ _ refs g.1 (by simp) (by simp [objIds]) (by simpa [objIds] using q)
+  · rcases g.2.lights k hk with q | q
+    · exact absurd q hk'
+    · exact add_ok_of_free _ _ refs g.1 (by simp) (by simp [objIds]) (by simpa [objIds] using q)
 
-/-- remove_lanelet (single = one-element list, and list form): the lanelets, and the traffic signs and lights that
-    went with them as "hanging members", can be added again -/
-theorem C09_remove_lanelet_then_add (s s' : St) (ls : List Lanelet) (refd : Bool) (h : Inv s)
-    (hr : step s (.removeLanelets ls refd) = (s', .ok)) (refs : List Nat) :
-    (∀ l ∈ ls, (step s' (.add (.lanelet l) refs)).2 = .ok) ∧
-    (refd = true → (∀ k ∈ hangingSigns s ls, (step s' (.add (.sign k) refs)).2 = .ok) ∧
-                   (∀ k ∈ hangingLights s ls, (step s' (.add (.light k) refs)).2 = .ok)) := by
-  have hi : Inv s' := fst_of_eq hr ▸ (removeLanelets_good s ls refd h).1
-  obtain ⟨f1, f2⟩ := removeLanelets_frees s s' ls refd hr
-  refine ⟨fun l hl => add_ok_of_free _ _ refs hi (by simp) (by simp [objIds]) (by simpa [objIds] using f1 l hl),
-    fun hrf => ⟨fun k hk => ?_, fun k hk => ?_⟩⟩
-  · exact add_ok_of_free _ _ refs hi (by simp) (by simp [objIds]) (by simpa [objIds] using (f2 hrf).1 k hk)
-  · exact add_ok_of_free _ _ refs hi (by simp) (by simp [objIds]) (by simpa [objIds] using (f2 hrf).2 k hk)
-
-/-- replace_lanelet_network: every object whose ids belonged to the old network and are not taken by a member of the
-    new one can be added again -/
-theorem C09_replace_network_then_add (s s' : St) (n : Net) (h : Inv s) (hr : step s (.replaceNet n) = (s', .ok))
-    (o : Obj) (refs : List Nat) (hv : o ≠ .invalid) (hn : (objIds o).Nodup)
-    (hold : ∀ x ∈ objIds o, x ∈ netIds s.net ∧ x ∉ netIds n) : (step s' (.add o refs)).2 = .ok :=
-  add_ok_of_free _ _ refs (fst_of_eq hr ▸ replaceNet_inv s n h) hv hn
-    (fun x hx => replaceNet_frees s s' n h hr x (hold x hx).1 (hold x hx).2)
+/-- replace_lanelet_network: it returns exactly when the ids of the new network are pairwise distinct and none of them
+    belongs to an obstacle — ids of the replaced network may be reused (otherwise ValueError); then the new network is
+    installed, the obstacles are untouched, the id pool is the new members' ids plus the obstacles' ids, and every
+    object whose ids belonged to the old network and are not taken by a member of the new one can be added again. -/
+theorem C09_replace_network_then_add (s : St) (n : Net) (h : Inv s) :
+    ((netIds n).Nodup ∧ (∀ k ∈ netIds n, k ∉ obstIds s) →
+      (step s (.replaceNet n)).2 = .ok ∧ (step s (.replaceNet n)).1.net = n ∧ SameObst s (step s (.replaceNet n)).1 ∧
+      (∀ x, x ∈ (step s (.replaceNet n)).1.idSet ↔ x ∈ netIds n ∨ x ∈ obstIds s) ∧
+      ∀ o refs, o ≠ .invalid → (objIds o).Nodup → (∀ x ∈ objIds o, x ∈ netIds s.net ∧ x ∉ netIds n) →
+        (step (step s (.replaceNet n)).1 (.add o refs)).2 = .ok) ∧
+    (¬ ((netIds n).Nodup ∧ ∀ k ∈ netIds n, k ∉ obstIds s) → (step s (.replaceNet n)).2 = .err .value) := by
+  constructor
+  · rintro ⟨hn, hf⟩
+    obtain ⟨hok, hnet, hobst, hid⟩ := replaceNet_ok s n h hn hf
+    refine ⟨hok, hnet, hobst, hid, fun o refs hv hno hold => ?_⟩
+    exact add_ok_of_free _ _ refs (replaceNet_inv s n h) hv hno
+      (fun x hx => replaceNet_frees s _ n h (Prod.ext rfl hok) x (hold x hx).1 (hold x hx).2)
+  · intro hnot
+    have hok := erase_ok s h
+    have hnf : ¬ Fresh (erase s).1 (netIds n) := fun hf =>
+      hnot ⟨hf.1, fun k hk hx => hf.2 k hk ((erase_idSet s h k).mpr hx)⟩
+    show (replaceNet s n).2 = _
+    unfold replaceNet
+    rw [andThen_eq_of_ok hok]
+    unfold addNetwork
+    rw [markMany_used _ _ hnf]; rfl
 
 /-- add_objects(LaneletNetwork) replaces the network as well: the ids of the network it drops are free afterwards -/
 theorem C09_add_network_releases_old (s : St) (n : Net) (hok : (step s (.add (.network n) [])).2 = .ok)
@@ -218,7 +319,8 @@ theorem C09_add_network_releases_old (s : St) (n : Net) (hok : (step s (.add (.n
     simp [hx]
   · rw [markMany_used s _ hf] at hok'; simp [onMarked] at hok'
 
-/-! ## non-vacuity and the three repaired defects, on concrete histories -/
+/-! ## non-vacuity and the repaired defects, on concrete histories
+  (`decide`d facts about these literals only — tests of the model, not general statements) -/
 
 /-- a history that uses every kind of operation (also removals of objects that are not contained); its outcomes -/
 def demoOps : List Op :=
@@ -233,6 +335,18 @@ example : (run init demoOps).2 =
     [.ok, .ok, .ok, .ok, .ok, .ok, .ok, .err .value, .id 21, .ok, .ok, .ok, .ok, .id 22, .err .value, .ok, .ok,
      .err .key, .ok, .err .key, .err .key, .ok] := by decide
 example : Inv (run init demoOps).1 := C09_inv_run demoOps init C09_inv_init
+
+/-- the hypotheses of the removal theorems are satisfiable together: a state reached by a history (so `Inv` holds),
+    two contained lanelets with different ids sharing / owning signs, two contained intersections -/
+def demoState : St := (run init (demoOps.take 8)).1
+example : Inv demoState := C09_inv_run _ init C09_inv_init
+example : ((demoState.net.lanelets.map (·.id)).Nodup ∧ ∀ l ∈ demoState.net.lanelets, l.id ∈ lids demoState.net) ∧
+    demoState.net.lanelets.length = 2 ∧ demoState.net.signs = [5, 6] ∧ demoState.net.inters = [⟨10, [11, 12]⟩] ∧
+    demoState.stat = [20] := by decide
+example : (step demoState (.removeLanelets demoState.net.lanelets true)).2 = .ok :=
+  (C09_remove_lanelet_then_add demoState _ true (C09_inv_run _ init C09_inv_init) (by decide) (by decide)).1
+example : (step demoState (.replaceNet { lanelets := [⟨1, [], []⟩], signs := [5, 40] })).2 = .ok :=
+  ((C09_replace_network_then_add demoState _ (C09_inv_run _ init C09_inv_init)).1 (by decide)).1
 
 /-- defect 1 (repaired): list-form remove_intersection, then adding the intersection again -/
 example : (run init [.add (.inter ⟨51, [52, 53]⟩) [], .removeInters [⟨51, [52, 53]⟩], .add (.inter ⟨51, [52, 53]⟩) []]).2
